@@ -34,7 +34,7 @@ func vhC17Race(T int) {
 	vTraceEnd()
 	vReach("traced", true)
 	_ = c2
-	vAssert("C17.lazy-signing-context-is-data-race-free", vRaceFree(T, func() {
+	vAssert("C17,C13,C14.lazy-signing-context-is-data-race-free", vRaceFree(T, func() {
 		s := vhC17SPNative()
 		vhUseContext(s.SigningContext())
 	}))
